@@ -13,7 +13,8 @@ variable {ρ β ε : Type}
 /-- Tie to the source: compile()'s loop has the shape the model mirrors (every regex fact holds). -/
 theorem loop_shape_as_modelled :
     loopShape = ⟨true, true, true, true, true, true, true, true⟩ ∧
-    buildClonesAndSelectsByName = true ∧ hlslReportsEmittedName = true := by decide
+    buildClonesAndSelectsByName = true ∧ hlslReportsEmittedName = true ∧
+    selectPipelineByExactName = true ∧ defaultSetFromSelectedPipeline = true := by decide
 
 /-- use classes of `.pipelines` that keep the selected pipeline the only one read after type checking:
     indexing by the selected index, the selection loop itself, the driver loop, construction -/
